@@ -108,7 +108,7 @@ mutant("nonce-generation-no-loop", NO, "        loop {\n            if let Ok(n)
 mutant("nonce-decode-accepts-tag", NO, "        if n != CLOSE_SCALAR {", "        if true || n != CLOSE_SCALAR {", ["C18", "C15"])
 ST = "zkabacus-crypto/src/states.rs"
 mutant("channel-id-drops-customer-account", ST, "        hasher.update(customer_account_info);\n", "", ["C18"])
-mutant("state-message-swaps-balances", ST, "            self.customer_balance.to_scalar(),\n            self.merchant_balance.to_scalar(),\n        ])\n    }\n}\n\nimpl CloseState", "            self.merchant_balance.to_scalar(),\n            self.customer_balance.to_scalar(),\n        ])\n    }\n}\n\nimpl CloseState", ["C04", "C01"], why="state and close-state layouts disagree")
+mutant("state-message-swaps-balances", ST, "            self.customer_balance.to_scalar(),\n            self.merchant_balance.to_scalar(),\n        ])\n    }\n}\n\nimpl CloseState", "            self.merchant_balance.to_scalar(),\n            self.customer_balance.to_scalar(),\n        ])\n    }\n}\n\nimpl CloseState", ["C04"], why="state and close-state layouts disagree: honest establishment with unequal balances is refused")
 PS = "zkchannels-crypto/src/pointcheval_sanders.rs"
 mutant("keygen-no-nonzero-loop", PS, "        let mut get_nonzero_scalar = || loop {\n            let r = Scalar::random(&mut *rng);\n            if !r.is_zero() {\n                return r;\n            }\n        };", "        let mut get_nonzero_scalar = || Scalar::random(&mut *rng);", ["C19"])
 mutant("blind-and-randomize-drops-randomisation", PS, "        blinded_signature.randomize(rng);\n        BlindedSignature(blinded_signature)", "        let _ = &rng;\n        BlindedSignature(blinded_signature)", ["C14"])
